@@ -97,7 +97,7 @@ def st_case():
     def build(draw):
         op = draw(st.sampled_from(['retrieve', 'merge', 'merge', 'merge3', 'embed', 'mask', 'forwards', 'forwards_partial', 'partial',
                                    'kwoargs', 'posoargs', 'autokwoargs', 'annotate', 'discovery', 'discovery_chain', 'discovery_twice',
-                                   'replace_mixed', 'wraps', 'wraps', 'retrieve_class', 'retrieve_instance', 'runtime_annotation']))
+                                   'replace_mixed', 'replace_annotation_removed', 'wraps', 'wraps', 'retrieve_class', 'retrieve_instance', 'runtime_annotation']))
         nfun = {'merge': 2, 'merge3': 3, 'embed': 2, 'forwards': 2, 'forwards_partial': 2, 'discovery': 2, 'discovery_chain': 3,
                 'discovery_twice': 2, 'wraps': 2}.get(op, 1)
         if op in ('merge', 'merge3'):
@@ -244,6 +244,11 @@ def run_op(case, fns):
         if named:
             fns[0].__annotations__[named[0]] = OBJS[3]
         return sigtools.signature(fns[0]) if ex['pick'] % 2 else sig(fns[0])
+    if op == 'replace_annotation_removed':
+        # every second parameter gets its annotation taken away with replace(annotation=empty): gone for good, in every view
+        s0 = sigtools.signature(fns[0]) if ex['pick'] % 2 else sig(fns[0])
+        ps = list(s0.parameters.values())
+        return s0.replace(parameters=[q.replace(annotation=q.empty) if i % 2 == 0 else q for i, q in enumerate(ps)])
     if op == 'replace_mixed':
         # a parameter list mixing the signature's own parameters with a plain inspect.Parameter (deprecated, accepted)
         import inspect
@@ -431,6 +436,8 @@ def check_case(case, stats):
                 else:
                     continue
                 exp = EMPTY if sp is None else denote(sp, penvs[0] if case['envmode'] == 'shared' else penvs[i])
+                if case['op'] == 'replace_annotation_removed' and name != 'return' and [p[0] for p in case['funcs'][0]['spec']].index(name) % 2 == 0:
+                    exp = EMPTY         # taken away with replace(annotation=empty)
                 # star parameters of embed/forwards results may stand for both the outer's and the inner's
                 kindmap = dict((p[0], p[1]) for f in case['funcs'] for p in f['spec'])
                 if kindmap.get(name) in (VP, VK) and case['op'] in ('embed', 'forwards', 'forwards_partial', 'discovery', 'discovery_chain', 'discovery_twice'):
